@@ -139,6 +139,7 @@ func checkC05(c *checkCtx) {
 	if c.thorough() {
 		nG = 120
 	}
+	checkUnqualifiedUnaffected(c, nG)
 	ws := newWorkspace("c05")
 	defer ws.close()
 	type meta struct {
@@ -340,5 +341,73 @@ func checkC05(c *checkCtx) {
 			}
 		}
 		p += 2 * n
+	}
+}
+
+// checkUnqualifiedUnaffected: "unqualified alternatives are unaffected": a
+// conflict that involves an alternative without qualifier (a prefix or postfix
+// operator next to qualified binary ones) must not be settled by precedence;
+// lox's verdict must be the reference construction's verdict.
+func checkUnqualifiedUnaffected(c *checkCtx, n int) {
+	ws := newWorkspace("c05u")
+	defer ws.close()
+	for i := 0; i < n; i++ {
+		g, _ := genOpGrammar(c.rng)
+		e := &g.rules[0]
+		op := g.tokens[c.rng.intn(len(g.tokens)-3)]
+		switch c.rng.intn(3) {
+		case 0: // prefix
+			e.prods = append(e.prods, gProd{terms: []gTerm{{kind: 0, name: op}, {kind: 1, name: "e"}}})
+		case 1: // postfix
+			e.prods = append(e.prods, gProd{terms: []gTerm{{kind: 1, name: "e"}, {kind: 0, name: "NUM"}}})
+		default: // unqualified binary
+			e.prods = append(e.prods, gProd{terms: []gTerm{{kind: 1, name: "e"}, {kind: 0, name: "LP"}, {kind: 1, name: "e"}}})
+		}
+		ws.add(g.text())
+	}
+	if err := ws.dumpAll(); err != nil {
+		return
+	}
+	var reqs []*req
+	var used []*wsSpec
+	for _, s := range ws.specs {
+		d := s.dump
+		if !d.OK {
+			continue
+		}
+		id := len(used)
+		used = append(used, s)
+		g := newReq("grammar").i(id).i(len(d.Prods))
+		for _, p := range d.Prods {
+			g.i(p.Rule).i(len(p.Terms))
+			for _, t := range p.Terms {
+				g.b(t.T).i(t.I)
+			}
+		}
+		l := newReq("lalr").i(id).i(len(d.Prods))
+		for _, p := range d.Prods {
+			l.i(p.Prec)
+		}
+		l.i(len(d.Prods))
+		for _, p := range d.Prods {
+			l.b(p.Assoc == 1)
+		}
+		reqs = append(reqs, g, l)
+	}
+	ans, err := callModel(reqs)
+	if err != nil {
+		return
+	}
+	for i, s := range used {
+		ref := readRefAuto(ans[2*i+1])
+		c.note("unq"+s.loxText, true)
+		if ref.ok && s.dump.HasConflicts != ref.conflicts {
+			what := "lox accepts the grammar: precedence silently settled a conflict that involves an alternative without qualifier"
+			if s.dump.HasConflicts {
+				what = "lox reports conflicts although none involves more than qualified alternatives of one rule"
+			}
+			c.addFinding(finding{Signature: "unqualified-alternative-affected", Desc: what,
+				Replay: map[string]any{"spec": s.loxText, "lox_has_conflicts": s.dump.HasConflicts, "reference_has_conflicts": ref.conflicts}})
+		}
 	}
 }
